@@ -139,6 +139,17 @@ func (r *Report) finish(evdir string, writeEvidence bool) int {
 	for _, pr := range r.Problems {
 		emitViolation("contracts", pr, nil)
 	}
+	// a function verified once per value of a split expression has a
+	// satisfiable precondition if it has one for some value
+	vacOK := map[string]bool{}
+	for _, u := range r.Results {
+		for _, o := range u.Obligations {
+			if o.Vacuity && o.Status != "failed" {
+				vacOK[o.Func] = true
+			}
+		}
+	}
+	var splitVacuous []string
 	for _, u := range r.Results {
 		tot, dis, triv, _ := summarize(u.Obligations)
 		fe := map[string]any{"func": u.Func, "file": u.File, "obligations": tot, "discharged": dis, "trivial": triv}
@@ -156,6 +167,10 @@ func (r *Report) finish(evdir string, writeEvidence bool) int {
 		assumedAll = append(assumedAll, u.Assumed...)
 		for _, o := range u.Obligations {
 			if o.Vacuity {
+				if o.Status == "failed" && vacOK[o.Func] && strings.Contains(o.Name, "]#vacuity") {
+					splitVacuous = append(splitVacuous, o.Name)
+					continue
+				}
 				if o.Status == "failed" {
 					vacuity = append(vacuity, o.Name)
 					emitViolation(o.Name, "vacuous-precondition", o)
@@ -237,6 +252,7 @@ func (r *Report) finish(evdir string, writeEvidence bool) int {
 				"assumed_external_contracts": extList,
 				"known_findings":             knownHits,
 				"vacuity_alarms":             vacuity,
+				"split_values_excluded_by_precondition": splitVacuous,
 				"trivially_true_obligations": trivial,
 				"unmechanised_lemmas":        unmechanised[r.Prop],
 				"bounded_checks":             []string{},
